@@ -119,7 +119,7 @@ LEVEL_TEXT = ('Proved in Lean for every object graph without _cp_dispatch, every
               'proof obligation; without the copy the statement is proved false by a 2-request witness). NamespaceSet.__call__: '
               'every entry ns.k reaches exactly the handler registered for ns, as (k, value), in registration x dict order; '
               'context-manager handlers are entered first and exited exactly once, told about an exception, which propagates iff '
-              'not swallowed; the request serves hooks, request, response, error_page and last tools (live tables); effects of the '
+              'not swallowed; the request serves hooks, request, response, error_page and tools (live tables); effects of the '
               'registered handlers (request.body.*, response.headers.*, hooks.<point>.*, error_page, server.<name>.on, '
               'engine.<plugin>.on, log, checker). cherrypy.config.update: only [global] of a sectioned input counts, file = dict, '
               'environment entries fill in the keys the update does not set (live table), later updates win. INI layer: case of '
